@@ -110,3 +110,11 @@ add("C19",
     "Trusted: CrossHair/z3; clock model; in-memory cache only (shelve-backed variant is I/O, outside); expiry 0 = reset marker excluded.",
     "DESIGN.md 3/C19")
 NOT_APPLICABLE.pop("C19", None)
+
+add("C18",
+    "CrossHair-driven exploration of IdentDB operation histories (issue persistent/transient, withdraw, remove_local, manage-name-id, name-id-mapping over 2 users x 3 SPs) against a reference map, and of ident.code/decode over alphabet-indexed field contents",
+    "All 2-op histories and sampled 3-op histories (quick; all 3-op in thorough) over 24 operation codes: after every step each issued, unwithdrawn identifier resolves to exactly its user, withdrawn ones to nobody, find_nameid lists only real identifiers, persistent ids are stable per (user, SP) and distinct otherwise, transient ids fresh. "
+    "code/decode round-trips every field and code is injective for fields built from separators, percent signs, spaces, look-alike prefixes and non-ASCII text.",
+    "Trusted: CrossHair/z3 (index enumeration; strings concrete per path); id generator stub that never repeats; in-memory dict database.",
+    "DESIGN.md 3/C18")
+NOT_APPLICABLE.pop("C18", None)
